@@ -74,6 +74,8 @@ class Printer(object):
         self.adts = dict(G.PRELUDE_ADTS)
         for a in module.adts:
             self.adts[a.name] = a
+        self.alias = {}
+        self.qualified = set()
 
     # ------------------------------------------------------------ patterns
     def pat(self, p):
@@ -185,6 +187,10 @@ class Printer(object):
                 return "Void", P_ATOM
             raise ValueError(e.ty)
         if k == "Var":
+            if e.name in self.alias:
+                return self.alias[e.name], P_ATOM
+            if e.name in self.qualified:
+                return "lib." + e.name, P_ATOM
             return e.name, P_ATOM
         if k == "ListE":
             parts = [self.ex(x, 0) for x in e.elems]
@@ -291,7 +297,7 @@ class Printer(object):
 
     def fn(self, f):
         ps = ", ".join(n + ": " + ty(t) for n, t in f.params)
-        return ("pub " if f.public else "") + "fn " + f.name + "(" + ps + ") -> " + ty(f.ret) + " " + self.body(f.body)
+        return ("pub " if f.public else "") + "fn " + self.alias.get(f.name, f.name) + "(" + ps + ") -> " + ty(f.ret) + " " + self.body(f.body)
 
     def module(self):
         parts = ["use aiken/builtin"]
@@ -306,5 +312,53 @@ class Printer(object):
         return "\n\n".join(parts) + "\n"
 
 
+    def modules(self):
+        """[{"name", "kind", "src"}] in dependency order. With the "two modules" layout the type, constant and
+        helper definitions live in `lib` (all public) and the entries in `m`, which imports them by name."""
+        if not self.m.features.get("layout:two_modules"):
+            return [{"name": "m", "kind": "lib", "src": self.module()}]
+        lib = ["use aiken/builtin"]
+        names = []
+        for a in self.m.adts:
+            lib.append(self.adt(a))
+            names.append(a.name)
+            for c in a.ctors:
+                if c.name != a.name:
+                    names.append(c.name)
+        for c in self.m.consts:
+            lib.append(self.const(c))
+            names.append(c.name)
+        meta = self.m.meta or {}
+        local = set(meta.get("local", []))
+        for f in self.m.fns:
+            if f.name in local:
+                continue
+            lib.append("pub " + self.fn(f) if not f.public else self.fn(f))
+            if f.name not in meta.get("qualified", []):
+                names.append(f.name)
+        main = ["use aiken/builtin"]
+        if names:
+            main.append("use lib.{" + ", ".join(names) + "}")
+        elif meta.get("qualified"):
+            main.append("use lib")
+        self.alias = dict(meta.get("alias", {}))
+        self.qualified = set(meta.get("qualified", []))
+        for f in self.m.fns:
+            if f.name in local:
+                main.append(self.fn(f))
+        for e in self.m.entries:
+            main.append(self.fn(e.fn))
+        self.alias = {}
+        self.qualified = set()
+        return [
+            {"name": "lib", "kind": "lib", "src": "\n\n".join(lib) + "\n"},
+            {"name": "m", "kind": "lib", "src": "\n\n".join(main) + "\n"},
+        ]
+
+
 def pp_module(module):
     return Printer(module).module()
+
+
+def pp_modules(module):
+    return Printer(module).modules()
